@@ -5,15 +5,14 @@
    vstep transcribe the Rust methods over the raw entries, placeholders included).  Reference:
    Spec/Ordered.v (ref_step / vref_step on a plain list of pairs / list).
 
-   `touches_placeholder kd h` (Model/Containers.v, decidable) = some call of h is applied to a key
-   whose entry is at that moment an `Item::None` placeholder left by an earlier `&mut c[k]`, and the
-   call is one of insert / insert_formatted / remove(_entry) [Table] / key / entry (or_insert, insert,
-   remove) / get_or_insert / index-assign / extend, or it is the owned into_iter of a Table holding
-   any placeholder.  On such histories the containers are NOT plain ordered maps (`_refuted` lemmas). *)
+   An `Item::None` placeholder left by an earlier `&mut c[k]` is absent for every call: the read
+   accessors filter it, and every write / entry path first drops it (`remove_placeholder`, the repair
+   of finding C16-placeholder-residue; Model/Containers.v `prep`).  The refinement theorems below
+   therefore hold for ALL histories; the histories that were counterexamples before the repair are
+   kept as regression examples at the end. *)
 From TV Require Import Base.Prelude Spec.Ordered Model.Containers Proofs.ContainersRefine.
 
 Theorem C16_table : forall h,
-  touches_placeholder KTable h = false ->
   snd (run (tstep KTable) [] h) = snd (run (ref_step KTable) [] h) /\
   forall ks, tobserve KTable ks (fst (run (tstep KTable) [] h))
              = ref_observe KTable ks (fst (run (ref_step KTable) [] h)).
@@ -21,7 +20,6 @@ Proof. exact (fun h => table_like_refines KTable h (or_introl eq_refl)). Qed.
 Print Assumptions C16_table.
 
 Theorem C16_inline : forall h,
-  touches_placeholder KInline h = false ->
   snd (run (tstep KInline) [] h) = snd (run (ref_step KInline) [] h) /\
   forall ks, tobserve KInline ks (fst (run (tstep KInline) [] h))
              = ref_observe KInline ks (fst (run (ref_step KInline) [] h)).
@@ -29,14 +27,13 @@ Proof. exact (fun h => table_like_refines KInline h (or_intror (or_introl eq_ref
 Print Assumptions C16_inline.
 
 Theorem C16_inline_tablelike : forall h,
-  touches_placeholder KInlineTL h = false ->
   snd (run (tstep KInlineTL) [] h) = snd (run (ref_step KInlineTL) [] h) /\
   forall ks, tobserve KInlineTL ks (fst (run (tstep KInlineTL) [] h))
              = ref_observe KInlineTL ks (fst (run (ref_step KInlineTL) [] h)).
 Proof. exact (fun h => table_like_refines KInlineTL h (or_intror (or_intror eq_refl))). Qed.
 Print Assumptions C16_inline_tablelike.
 
-(* full strength, no class: after ANY history (sensitive calls included) what the TableLike view of
+(* after ANY history what the TableLike view of
    an inline table shows (len, is_empty, iter, get, contains_key, printed entries) is exactly the
    list of real entries: the repaired F11. *)
 Theorem C16_inline_tablelike_view : forall h ks,
@@ -72,7 +69,7 @@ Proof. exact (fun h => map_refines KMapOrdered h (or_intror eq_refl)). Qed.
 Print Assumptions C16_map_ordered.
 
 (* placeholders are invisible to len / is_empty / iter / get / contains_key / printed entries:
-   in every reachable state (any history, sensitive calls included) of a Table, an InlineTable and
+   in every reachable state (any history) of a Table, an InlineTable and
    the TableLike view of an InlineTable, removing the placeholders physically changes nothing *)
 Theorem C16_placeholder : forall kd h ks,
   kd = KTable \/ kd = KInline \/ kd = KInlineTL ->
@@ -87,60 +84,43 @@ Theorem C16_placeholder_state : forall kd ks c,
 Proof. exact placeholders_invisible. Qed.
 Print Assumptions C16_placeholder_state.
 
-(* and every read CALL (get, get_mut, get_key_value(_mut), contains_*, len, is_empty, iter, iter_mut,
-   index) made in any reachable state answers as the reference does on the real entries *)
+(* and EVERY call (reads, writes, entry API, index operators) made in any reachable state answers as
+   the reference does on the real entries *)
 Theorem C16_placeholder_calls : forall kd h o,
-  kd = KTable \/ kd = KInline \/ kd = KInlineTL -> is_read o = true ->
+  kd = KTable \/ kd = KInline \/ kd = KInlineTL ->
   snd (tstep kd (fst (run (tstep kd) [] h)) o) = snd (ref_step kd (abs (fst (run (tstep kd) [] h))) o).
-Proof. exact reads_blind. Qed.
+Proof. exact calls_blind. Qed.
 Print Assumptions C16_placeholder_calls.
 
-(* ---- the class is not empty: concrete histories on which the containers are not plain maps ---- *)
-Theorem C16_table_refuted : exists h,
-  touches_placeholder KTable h = true /\ snd (run (tstep KTable) [] h) <> snd (run (ref_step KTable) [] h).
-Proof. exact (ex_intro _ w_table_insert w_table_insert_differs). Qed.
-Print Assumptions C16_table_refuted.
+(* ---- the former counterexamples of the placeholder class (C16_*_refuted before the repair) now agree ---- *)
+Theorem C16_table_regression :
+  agrees KTable w_table_insert /\ agrees KTable w_table_or_insert /\ agrees KTable w_table_order.
+Proof. exact (conj w_table_insert_agrees (conj w_table_or_insert_agrees w_table_order_agrees)). Qed.
+Print Assumptions C16_table_regression.
 
-Theorem C16_table_refuted_or_insert : exists h,
-  touches_placeholder KTable h = true /\ snd (run (tstep KTable) [] h) <> snd (run (ref_step KTable) [] h).
-Proof. exact (ex_intro _ w_table_or_insert w_table_or_insert_differs). Qed.
-Print Assumptions C16_table_refuted_or_insert.
+Theorem C16_inline_regression : agrees KInline w_inline_entry /\ agrees KInline w_inline_goi.
+Proof. exact (conj w_inline_entry_agrees w_inline_goi_agrees). Qed.
+Print Assumptions C16_inline_regression.
 
-Theorem C16_table_refuted_order : exists h,
-  touches_placeholder KTable h = true /\ snd (run (tstep KTable) [] h) <> snd (run (ref_step KTable) [] h).
-Proof. exact (ex_intro _ w_table_order w_table_order_differs). Qed.
-Print Assumptions C16_table_refuted_order.
+Theorem C16_inline_tablelike_regression : agrees KInlineTL w_tl_entry.
+Proof. exact w_tl_entry_agrees. Qed.
+Print Assumptions C16_inline_tablelike_regression.
 
-Theorem C16_inline_refuted : exists h,
-  touches_placeholder KInline h = true /\ snd (run (tstep KInline) [] h) <> snd (run (ref_step KInline) [] h).
-Proof. exact (ex_intro _ w_inline_entry w_inline_entry_differs). Qed.
-Print Assumptions C16_inline_refuted.
-
-Theorem C16_inline_refuted_panic : exists h,
-  touches_placeholder KInline h = true /\ snd (run (tstep KInline) [] h) <> snd (run (ref_step KInline) [] h).
-Proof. exact (ex_intro _ w_inline_goi w_inline_goi_differs). Qed.
-Print Assumptions C16_inline_refuted_panic.
-
-Theorem C16_inline_tablelike_refuted : exists h,
-  touches_placeholder KInlineTL h = true /\ snd (run (tstep KInlineTL) [] h) <> snd (run (ref_step KInlineTL) [] h).
-Proof. exact (ex_intro _ w_tl_entry w_tl_entry_differs). Qed.
-Print Assumptions C16_inline_tablelike_refuted.
-
-(* ---- non-vacuity: the hypotheses are satisfiable by histories that DO create placeholders ---- *)
+(* ---- non-vacuity: histories that DO create placeholders and leave them in the container ---- *)
 Example C16_table_covers_placeholders :
   let h := [MIns ka (PInt 1); MIdxM kb; MIns ["c"%byte] PTab; MRm ka; MIdxM kb; MSort; MLen; MIter; MGet kb;
             MRet (PKeyNe ka); MSortBy CValAsc] in
-  touches_placeholder KTable h = false /\ anyph (fst (run (tstep KTable) [] h)) = true.
-Proof. vm_compute. split; reflexivity. Qed.
+  anyph (fst (run (tstep KTable) [] h)) = true.
+Proof. vm_compute. reflexivity. Qed.
 
 Example C16_inline_tablelike_covers_placeholders :
   let h := [MIdxM ka; MIns kb (PInt 1); MIter; MGet ka; MGetM ka; MLen; MEmp; MCk ka; MIdxM ka; MSort] in
-  touches_placeholder KInlineTL h = false /\ anyph (fst (run (tstep KInlineTL) [] h)) = true.
-Proof. vm_compute. split; reflexivity. Qed.
+  anyph (fst (run (tstep KInlineTL) [] h)) = true.
+Proof. vm_compute. reflexivity. Qed.
 
 Example C16_inline_covers_placeholders :
   let h := [MIdxM ka; MIns kb (PInt 1); MIter; MGet ka; MRm ka; MIdxM ka; MRet PAll; MIns ka (PInt 2)] in
-  touches_placeholder KInline h = false.
+  snd (run (tstep KInline) [] h) = snd (run (ref_step KInline) [] h).
 Proof. vm_compute. reflexivity. Qed.
 
 (* the repaired F11 witness: auto-vivify a placeholder in an inline table, then look through TableLike *)
